@@ -238,7 +238,7 @@ class Indicator(ABC):
             ):
                 return index + 1
 
-        return 0
+        return 1
 
     def _set_active_index(self, index: int):
         self._active_index = index
